@@ -1080,7 +1080,7 @@ fn get_quote_trait_params<'a>(input: &DataType, ctx: &'a ImplContext) -> QuoteTr
 
 fn quote_trait(input: &DataType, ctx: &mut ImplContext) -> TokenStream {
     let pre_init = struct_pre_init(ctx);
-    let post_init = if ctx.kind.is_from() { None } else {
+    let post_init = if ctx.kind.is_from() || ctx.struct_attr.quick_return.is_some() { None } else {
         struct_post_init(input, ctx)
     };
     ctx.has_post_init = post_init.is_some();
